@@ -271,22 +271,22 @@ Section Server.
     (forall x, In x l -> f x = g x) -> map f l = map g l.
   Proof. apply map_ext_in. Qed.
 
-  (* the shape of the relation between [handle] and [spec_handle] when only the two "answering" deviations
-     are excluded *)
+  (* the shape of the relation between [handle] and [spec_handle] when only the two "answering" deviations and
+     the batch-window deviation are excluded *)
   Lemma handle_vs_spec (ms : methods) (inp : input) :
-    grammar_ok inp = true ->
+    grammar_ok inp = true -> dev_batch_window inp = false ->
     dev_null_id ms inp = false -> dev_notif_error ms inp = false ->
     handle ms inp = spec_handle ms inp \/
     (handle ms inp = ([], Some parse_error) /\ spec_handle ms inp = ([], Some (invalid_request JNull))
      /\ (dev_non_object inp || dev_ill_typed inp) = true).
   Proof.
-    unfold grammar_ok, Model.dev_null_id, Model.dev_notif_error, entries,
+    unfold grammar_ok, dev_batch_window, Model.dev_null_id, Model.dev_notif_error, entries,
       Model.handle, Model.spec_handle, dev_non_object, dev_ill_typed.
     destruct (i_parsed inp) as [j|] eqn:Ep.
     2:{ intros. left. now destruct (i_bracket inp). }
-    destruct (is_arr j) eqn:Ea; intros Hg Hn He.
+    destruct (is_arr j) eqn:Ea; intros Hg Hw Hn He.
     - (* a batch *)
-      destruct j; try discriminate. apply Bool.eqb_prop in Hg. rewrite Hg.
+      destruct j; try discriminate. apply negb_false_iff in Hw. rewrite Hw.
       destruct l as [|e es]; [left; reflexivity|]. left. f_equal.
       apply map_ext_in'. intros x Hx. apply handle_entry_spec.
       + now apply (existsb_false_forall _ _ Hn).
@@ -312,7 +312,7 @@ Section Server.
     repeat (apply andb_true_iff in H as [H ?]).
     repeat match goal with X : negb _ = true |- _ => apply negb_true_iff in X end.
     destruct (handle_vs_spec ms inp) as [E|(_ & _ & E)]; auto.
-    rewrite H, H2 in E. discriminate.
+    rewrite H3, H2 in E. discriminate.
   Qed.
 
   (* ---------- the predicates hold of the specification's own answer ---------- *)
@@ -345,12 +345,12 @@ Section Server.
 
   (* correlation needs only the two deviations that change WHO is answered *)
   Lemma resp_correlated_lemma (ms : methods) (inp : input) :
-    grammar_ok inp = true ->
+    grammar_ok inp = true -> dev_batch_window inp = false ->
     dev_null_id ms inp = false -> dev_notif_error ms inp = false ->
     resp_correlated coerce zero run ms inp (snd (handle ms inp)) = true.
   Proof.
-    intros Hg Hn He.
-    destruct (handle_vs_spec ms inp Hg Hn He) as [E|(E1 & E2 & _)].
+    intros Hg Hw Hn He.
+    destruct (handle_vs_spec ms inp Hg Hw Hn He) as [E|(E1 & E2 & _)].
     - rewrite E. apply resp_correlated_spec.
     - unfold resp_correlated. rewrite E1, E2. reflexivity.
   Qed.
@@ -360,7 +360,7 @@ Section Server.
     codes coerce zero run ms inp (snd (handle ms inp)) = true.
   Proof. intros Hg H. rewrite (handle_refines_spec ms inp Hg H). apply codes_spec. Qed.
 
-  (* ---------- handler invocations: identical to the specification in every situation ---------- *)
+  (* ---------- handler invocations: identical to the specification in every situation but the batch window ---------- *)
   Lemma handle_request_calls (ms : methods) (kvs : list (str * json)) :
     d_typeerr (decode_obj kvs) = false ->
     fst (handle_request ms (decode_obj kvs)) = fst (spec_entry ms (JObj kvs)).
@@ -392,13 +392,13 @@ Section Server.
   Proof. intros H. induction es as [|e r IH]; [reflexivity|]. simpl. now rewrite H, IH. Qed.
 
   Lemma handle_calls (ms : methods) (inp : input) :
-    grammar_ok inp = true ->
+    grammar_ok inp = true -> dev_batch_window inp = false ->
     fst (handle ms inp) = fst (spec_handle ms inp).
   Proof.
-    unfold grammar_ok, Model.handle, Model.spec_handle. intros Hg.
+    unfold grammar_ok, dev_batch_window, Model.handle, Model.spec_handle. intros Hg Hw.
     destruct (i_parsed inp) as [j|]; [|now destruct (i_bracket inp)].
     destruct (is_arr j) eqn:Ea.
-    - destruct j; try discriminate. apply Bool.eqb_prop in Hg. rewrite Hg.
+    - destruct j; try discriminate. apply negb_false_iff in Hw. rewrite Hw.
       destruct l as [|e es]; [reflexivity|]. unfold batch_out. cbn [fst].
       apply flat_map_fst_ext. apply handle_entry_calls.
     - destruct (i_bracket inp); [simpl in Hg; discriminate|].
@@ -406,9 +406,9 @@ Section Server.
   Qed.
 
   Lemma calls_once_lemma (ms : methods) (inp : input) :
-    grammar_ok inp = true ->
+    grammar_ok inp = true -> dev_batch_window inp = false ->
     calls_once coerce zero run ms inp (fst (handle ms inp)) = true.
-  Proof. intros Hg. rewrite (handle_calls ms inp Hg). apply calls_once_spec. Qed.
+  Proof. intros Hg Hw. rewrite (handle_calls ms inp Hg Hw). apply calls_once_spec. Qed.
 
   (* ---------- what one decoded request does (the Prop reading of calls_once / codes) ---------- *)
   Lemma request_outcome (ms : methods) (d : dreq) :
